@@ -85,40 +85,64 @@ Proof.
 Qed.
 Print Assumptions C19_n_ann.
 
-(** *** "every accepted configuration runs to completion" is false of the faithful model *)
+(** *** Every accepted configuration ([_initialize_annealing] returns) runs to completion *)
 
-(** F11a: the shipped annealing defaults with n_iter = 10 pass the initialisation and divide by zero *)
-Theorem C19_total_refuted :
-  exists c st, default_cfg 10 = Ok c /\ init_anneal c = Ok st /\ degenerate c /\ run_anneal c 10 = Err Crash.
-Proof. exact default_10_crashes. Qed.
-Print Assumptions C19_total_refuted.
+Theorem C19_total : forall c st, init_anneal c = Ok st ->
+  forall n, exists l, run_anneal c n = Ok l /\ length l = S n.
+Proof. exact accepted_total. Qed.
+Print Assumptions C19_total.
 
-(** exact characterisation: an accepted configuration runs to completion for every number of iterations
-    iff it is not [degenerate] (on, n_plateau >= 2, 1 <= n_ann <= n_plateau - 2) *)
-Theorem C19_total_iff : forall c st, init_anneal c = Ok st ->
-  ((forall n, exists l, run_anneal c n = Ok l) <-> ~ degenerate c).
-Proof. exact total_iff. Qed.
-Print Assumptions C19_total_iff.
+(** the plateau length left behind by an accepted initialisation is at least 1: the modulo of
+    [_update_temperature] never divides by zero *)
+Theorem C19_period_positive : forall c st p, init_anneal c = Ok st -> period st = Some p -> (1 <= p)%Z.
+Proof. exact init_period_pos. Qed.
+Print Assumptions C19_period_positive.
 
-(** every accepted configuration is off, proper, degenerate or frozen *)
-Theorem C19_accepted_cases : forall c st, init_anneal c = Ok st ->
-  a_on c = false \/ proper c \/ degenerate c \/ frozen c.
+(** fewer annealing iterations than temperature steps ([short]: on, n_plateau >= 2, n_ann < n_plateau - 1, no
+    annealing iteration included) is refused with an input error (initial temperature 0 fails earlier, on its
+    inverse), never accepted *)
+Theorem C19_short_refused : forall c, short c ->
+  (~ T0 c == 0 -> init_anneal c = Err InputError) /\ (forall st, init_anneal c <> Ok st).
+Proof. exact short_refused. Qed.
+Print Assumptions C19_short_refused.
+
+(** the shipped defaults: n_iter = 10, 1 and 17 are refused at initialisation, 18 is the first proper one *)
+Theorem C19_defaults_short_refused :
+  (exists c, default_cfg 10 = Ok c /\ short c /\ init_anneal c = Err InputError) /\
+  (exists c, default_cfg 1 = Ok c /\ short c /\ n_ann c = 0%Z /\ init_anneal c = Err InputError) /\
+  (exists c, default_cfg 17 = Ok c /\ short c /\ init_anneal c = Err InputError) /\
+  (exists c, default_cfg 18 = Ok c /\ proper c).
+Proof. exact defaults_short_refused. Qed.
+Print Assumptions C19_defaults_short_refused.
+
+(** exact characterisation of the accepted configurations: off, proper, or a single plateau ([frozen]) with a
+    non-zero initial temperature *)
+Theorem C19_accepted_iff : forall c,
+  (exists st, init_anneal c = Ok st) <-> a_on c = false \/ proper c \/ (frozen c /\ ~ T0 c == 0).
+Proof. exact accepted_iff. Qed.
+Print Assumptions C19_accepted_iff.
+
+Theorem C19_accepted_cases : forall c st, init_anneal c = Ok st -> a_on c = false \/ proper c \/ frozen c.
 Proof. exact accepted_cases. Qed.
 Print Assumptions C19_accepted_cases.
 
-(** frozen configurations (a single plateau, or no annealing iteration) keep T0 for ever *)
+(** hence every theorem above about proper configurations holds for every accepted annealing scheme with at
+    least two plateaus *)
+Theorem C19_accepted_proper : forall c st, init_anneal c = Ok st -> a_on c = true -> (2 <= n_plateau c)%Z -> proper c.
+Proof. exact accepted_proper. Qed.
+Print Assumptions C19_accepted_proper.
+
+(** *** What remains false of the faithful model: a single plateau *)
+
+(** frozen configurations (a single plateau) keep T0 for ever *)
 Theorem C19_frozen : forall c st n, init_anneal c = Ok st -> frozen c ->
   exists l, run_anneal c n = Ok l /\ length l = S n /\ Forall (fun t => t = T0 c) l.
 Proof. exact frozen_run. Qed.
 Print Assumptions C19_frozen.
 
-(** F11b: hence "exactly 1 once the annealing iterations are over" fails for accepted configurations:
-    n_plateau = 1; annealing n_iter = 0; the shipped defaults with n_iter = 1 *)
-Theorem C19_one_after_annealing_refuted :
-  (exists c st, init_anneal c = Ok st /\ frozen c /\ n_plateau c = 1%Z /\ 1 < T0 c) /\
-  (exists c st, init_anneal c = Ok st /\ frozen c /\ (2 <= n_plateau c)%Z /\ n_ann c = 0%Z /\ 1 < T0 c) /\
-  (exists c st, default_cfg 1 = Ok c /\ init_anneal c = Ok st /\ frozen c).
-Proof. exact frozen_witnesses. Qed.
+(** F11b: hence "exactly 1 once the annealing iterations are over" fails for an accepted configuration with n_plateau = 1 *)
+Theorem C19_one_after_annealing_refuted : exists c st, init_anneal c = Ok st /\ frozen c /\ 1 < T0 c.
+Proof. exact frozen_witness. Qed.
 Print Assumptions C19_one_after_annealing_refuted.
 
 (** and "never below 1" fails too: with a single plateau the guard on the initial temperature is skipped *)
